@@ -295,6 +295,44 @@ impl Prop for C09T {
                 _ => {}
             }
         }
+        // the operation a query performs is the one it names: the observed sequence of
+        // remove / count operations must be a subsequence of the queue queries written
+        // (a query can legitimately not run: it is itself faulty, follows a unit that ended
+        // its message, or was lost with a broken link)
+        {
+            let model_if = simcore::spec::model(sc.iface);
+            let mut written: Vec<bool> = Vec::new(); // true = NEXT?, false = COUNt?
+            for m in &sc.msgs {
+                let mut ctx: Vec<String> = Vec::new();
+                for u in &m.units {
+                    if u.fault == fault::NONE && u.query && !u.is_common() {
+                        if let Some(d) = gen::resolve(model_if, &gen::full_header(&ctx, u), true) {
+                            match model_if.decl(d).role {
+                                StdRole::ErrNext => written.push(true),
+                                StdRole::ErrCount => written.push(false),
+                                _ => {}
+                            }
+                        }
+                    }
+                    ctx = gen::ctx_after(&ctx, u);
+                }
+            }
+            let observed: Vec<bool> = o.events.iter().filter_map(|e| match e {
+                Ev::QPop(_) => Some(true),
+                Ev::QCount(_) => Some(false),
+                _ => None,
+            }).collect();
+            let mut wi = 0;
+            for (k, ob) in observed.iter().enumerate() {
+                while wi < written.len() && written[wi] != *ob {
+                    wi += 1;
+                }
+                if wi >= written.len() {
+                    return v("wrong-operation", format!("queue operation {k} ({}) does not correspond to the queue queries written ({:?}, true = NEXT?, false = COUNt?)\n    {}", if *ob { "remove" } else { "count" }, written, brief(&o)));
+                }
+                wi += 1;
+            }
+        }
         // responses: what the queue returned must be what was answered
         if !too_big && !lost_write {
             // compared line by line, empty lines dropped: a stray newline written for a
